@@ -24,12 +24,23 @@ META = {
 @st.composite
 def cases(draw, tier):
     big = tier == "thorough"
-    return {"scheme": draw(gen.dyadic_schemes()), "dataset": draw(gen.datasets(max_n=15 if big else 8,
-                                                                               max_m=7 if big else 5)),
+    # generation dominates the cost: every dataset is examined under three drawn schemes and the four presets
+    return {"schemes": [draw(gen.dyadic_schemes()) for _ in range(3)],
+            "dataset": draw(gen.datasets(max_n=15 if big else 8, max_m=7 if big else 6)),
             "flag": draw(st.booleans())}
 
 
+PRESET_SCHEMES = [gen.PRESETS[k] for k in ("unifying", "pseudodistance", "induced", "extended")]
+
+
 def check(case, ctx):
+    if "scheme" in case:
+        return check_one(case, ctx)
+    for scheme in case["schemes"] + PRESET_SCHEMES:
+        check_one({"scheme": scheme, "dataset": case["dataset"], "flag": case["flag"]}, ctx)
+
+
+def check_one(case, ctx):
     rankings, scheme = case["dataset"]["rankings"], case["scheme"]
     d, s = lib.mk_dataset(rankings), lib.mk_scheme(scheme)
     inst = oracle.Instance(rankings, scheme)
@@ -91,4 +102,4 @@ def check(case, ctx):
 
 
 def subchecks():
-    return [HypSub("copeland", cases, check, 8000, 100000)]
+    return [HypSub("copeland", cases, check, 5000, 60000)]
